@@ -68,6 +68,9 @@ def _expand(task):
     for hist, expected in task:
         try:
             ctx = replay(driver, hist)
+            # the recorded key was taken after check() had looked at the
+            # state: observation may legitimately fill caches in desper
+            driver.check(ctx)
             got = digest(driver.key(ctx))
             if expected is not None and got != expected:
                 raise HarnessError(
@@ -146,7 +149,9 @@ def explore(driver, rep, part=None, max_depth=None, max_states=None,
         return dict(states=1, transitions=1)
     k0 = digest(driver.key(ctx0))
     # determinism self-check of the initial state
-    if digest(driver.key(driver.initial())) != k0:
+    again = driver.initial()
+    driver.check(again)
+    if digest(driver.key(again)) != k0:
         raise HarnessError(f'{part}: initial state is not deterministic')
     seen = {k0}
     frontier = [((), k0)]
